@@ -46,7 +46,12 @@ for c in spec['calls']:
             f = getattr(f, p)
         if c.get('py_func') and hasattr(f, 'py_func'):
             f = f.py_func
+        if 'init_args' in c:
+            obj = f(*dec(c['init_args']), **dec(c.get('init_kwargs', {})))
+            f = getattr(obj, c.get('method', '__call__'))
         r = f(*dec(c.get('args', [])), **dec(c.get('kwargs', {})))
+        if c.get('return_args'):
+            r = [r] + [dec(c['args'])[i] for i in c['return_args']]
         out.append({'ok': True, 'value': enc(r)})
     except BaseException as e:
         out.append({'ok': False, 'error': repr(e), 'type': type(e).__name__, 'trace': traceback.format_exc()[-1500:]})
